@@ -302,11 +302,20 @@ def run_stream(binary, component, driver, seed, n, outdir, ops_file=None, timeou
     env.update(env_extra or {})
     t0 = time.time()
     rc, o = run(cmd, env=env, timeout=timeout)
-    res = {"component": component, "harness_rc": rc, "harness_out": o[-4000:], "dir": outdir,
-           "mismatches": [], "oracle": [], "cases": 0, "harness_s": round(time.time() - t0, 2)}
     if rc != 0:
-        res["error"] = "harness exited %d" % rc
-        return res
+        return {"component": component, "harness_rc": rc, "harness_out": o[-4000:], "dir": outdir,
+                "mismatches": [], "oracle": [], "cases": 0, "harness_s": round(time.time() - t0, 2),
+                "error": "harness exited %d" % rc}
+    res = compare_dir(component, driver, outdir, timeout=timeout)
+    res["harness_rc"] = rc
+    res["harness_out"] = o[-4000:]
+    res["harness_s"] = round(time.time() - t0, 2)
+    return res
+
+
+def compare_dir(component, driver, outdir, timeout=3600):
+    """Run the Lean driver on mops.txt and diff its output with impl.txt."""
+    res = {"component": component, "dir": outdir, "mismatches": [], "oracle": [], "cases": 0}
     hydrv = os.path.join(LEAN, ".lake", "build", "bin", "hydrv")
     t1 = time.time()
     with open(os.path.join(outdir, "mops.txt")) as fin, open(os.path.join(outdir, "model.txt"), "w") as fout:
